@@ -222,6 +222,24 @@ def _enumerate(tier):
                     ("error",) if s["at"] in ("call", "merge") else ()):
                 cases.append(dict(part="enum", cfg=cfg,
                                   crashes=[dict(s, exc=exc)], final="same"))
+    # a few PAIRS also in the quick tier (all pairs: thorough): interrupted
+    # right after a save, resumed and interrupted again BEFORE the next save
+    # (what was merged in memory since the restart is not durable)
+    cfg = dict(_enum_cfg([301], "", False), rep_max=3)
+    firsts = [{"at": "replace", "k": 0, "when": "after"},
+              {"at": "replace", "k": 1, "when": "after"},
+              {"at": "write", "k": 1, "prefix": "full"}]
+    seconds = [{"at": "call", "n": 0}, {"at": "call", "n": 1},
+               {"at": "merge", "n": 0}, {"at": "write", "k": 0,
+                                         "prefix": "open"},
+               {"at": "write", "k": 0, "prefix": "half"},
+               {"at": "replace", "k": 0, "when": "before"}]
+    for a in firsts:
+        for b in seconds:
+            for exc in ("kill", "ctrlc"):
+                cases.append(dict(part="enum", cfg=cfg,
+                                  crashes=[dict(a, exc="kill"),
+                                           dict(b, exc=exc)], final="same"))
     return cases
 
 
